@@ -180,12 +180,15 @@ def explore(pid, tier, seed, verdict, full=True):
         exe = None
     if exe:
         good = os.path.join(V.REPO, "testdata", "zoneinfo", "America", "New_York")
-        dr = V.run_driver(exe, [bf, out, good], timeout=3000, env={"TSAN_OPTIONS": "halt_on_error=0:report_signal_unsafe=0"})
+        # (a change that makes a load wait for ever must not hold the check for long: the quick replay takes about a minute)
+        dr = V.run_driver(exe, [bf, out, good], timeout=600 if tier == "quick" else 3000, env={"TSAN_OPTIONS": "halt_on_error=0:report_signal_unsafe=0"})
         m = re.search(r"behaviours=(\d+) steps=(\d+) lost=(\d+)", dr.stderr)
         if m:
             st["replayed_behaviours"], st["replayed_steps"], st["steps_not_followed"] = map(int, m.groups())
         if "ThreadSanitizer" in dr.stderr:
             verdict.violation("tsan-report", "ThreadSanitizer reported: " + dr.stderr[dr.stderr.find("WARNING"):][:1500])
+        elif dr.returncode == 124:
+            verdict.violation("replay-hang", "replay_loader did not finish (a load that never returns): " + dr.stderr[-500:])
         elif dr.returncode != 0:
             verdict.violation("replay-crash:rc%d" % dr.returncode, "replay_loader died: " + dr.stderr[-500:])
         # the very first loads of a process (the lazily created cache does not exist yet): the canonical
